@@ -3,7 +3,7 @@ from . import _hub
 
 CONFIG = dict(
     modules=["SigModel.Props.C19"],
-    theorems=[],
+    theorems=["SigModel.Hub.reachable_inv", "SigModel.Hub.C19_only_internal", "SigModel.Hub.C19_own_backend_only", "SigModel.Hub.C19_exists_through_parent", "SigModel.Hub.C19_table_sound", "SigModel.Hub.C19_member_not_listener", "SigModel.Hub.C19_removed_is_gone", "SigModel.Hub.C05_routing", "SigModel.Hub.C07_no_residue"],
     generated=["Hub"],
     harness=_hub.HARNESS,
     stats=_hub.stats,
@@ -15,7 +15,7 @@ CONFIG = dict(
 )
 
 MANIFEST = dict(
-    text="placeholder",
-    note="placeholder",
+    text="Lean 4 theorems over the hub model: add/remove/in-call requests of sessions that are not internal clients change nothing; a virtual session is created only in the room of that id on the internal client's own backend; in every reachable state a virtual session has no connection of its own and its owner exists, is an internal session of the same backend and lists it (so none can outlive its internal client), the virtual-session table is sound, a virtual session in a room is a member but not a bus listener and messages addressed to it are written to the internal client with the recipient rewritten (C05_routing); a removed virtual session is gone, with no residue (C07_no_residue). Differential hub run with add/update/remove from internal and ordinary clients, duplicate ids, messages to virtual sessions, end of the parent.",
+    note='Synchronous routing layer: single hub, loopback bus, quiescence between ops; no gRPC peers, MCU or federation. Trusted: Lean kernel, extractor, harness (real websockets, fake Nextcloud backend) and comparison. Backend notifications (session add/remove requests) are parameters of the ops (success/failure), their content is not compared. Flags updates (updatesession) are not modelled.',
     technique="Lean 4 proof (routing refinement over the hub model) + differential correspondence",
 )
